@@ -69,7 +69,7 @@ func TestQuery(t *testing.T) {
 
 // TestBombChild parses VERIF_BOMB in an address-space-limited subprocess (C06).
 func TestBombChild(t *testing.T) {
-	if os.Getenv("VERIF_BOMB") == "" {
+	if os.Getenv("VERIF_BOMB_FILE") == "" {
 		t.Skip()
 	}
 	BombChild()
